@@ -166,15 +166,19 @@ def vecLitHooks (k : LitKind) (parseArr : String → Option Expr) (tok : String 
     fromValue? := some (fun l => vecLitFromExpr k parseArr tok injL (.lit l)),
     fromExpr? := some (vecLitFromExpr k parseArr tok injL) }
 
-/-- one element of a numeric array (`from_numeric_array!`) -/
+/-- the literal an element of a numeric array stands for: the invisible groups around it are
+    peeled to any depth (`while let Expr::Group(group) = inner { inner = &group.expr }`) -/
+def numElemLit : Expr → Option Lit
+  | .group g _ => numElemLit g
+  | .lit l => some l
+  | _ => none
+
+/-- one element of a numeric array (`from_numeric_array!`); the error of a non-literal carries
+    the span of the element as written (`with_span(expr)`, the outermost node) -/
 def numElem (sp : IntSpec) (inj : Int → α) (e : Expr) : Outcome α :=
-  let unexpected : Err := (Err.custom "Expected array of unsigned integers").withSpan e.span
-  match e with
-  | .lit l => Scalars.numFromValue sp inj l
-  | .group g _ => (match g with
-      | .lit l => Scalars.numFromValue sp inj l
-      | _ => .err unexpected)
-  | _ => .err unexpected
+  match numElemLit e with
+  | some l => Scalars.numFromValue sp inj l
+  | none => .err ((Err.custom "Expected array of unsigned integers").withSpan e.span)
 
 def numArrayFromExpr (sp : IntSpec) (parseArr : String → Option Expr) (inj : Int → α) (injL : List α → α) :
     Expr → Outcome α
@@ -209,13 +213,18 @@ def pathListFromList {β : Type} (f : Path → β) : List NestedMeta → Outcome
 def pathListHooks (tok : String → α) (injL : List α → α) : Hooks α :=
   { fromList? := some (fun items => (pathListFromList (fun p => tok p.toks) items).map injL) }
 
+/-- `impl FromMeta for Callable`: `from_expr` (a path or a closure; an invisible group is
+    looked through, like the default `FromMeta::from_expr`) -/
+def callableFromExpr (tok : String → α) : Expr → Outcome α
+  | .group g _ => callableFromExpr tok g
+  | .path p _ => .ok (tok p.toks)
+  | .qpath _ t _ => .ok (tok t)
+  | .other "closure" t _ => .ok (tok t)
+  | e => .err (Err.unexpectedExprType e)
+
 /-- `impl FromMeta for Callable` -/
 def callableHooks (tok : String → α) : Hooks α :=
-  { fromExpr? := some (fun e => match e with
-      | .path p _ => .ok (tok p.toks)
-      | .qpath _ t _ => .ok (tok t)
-      | .other "closure" t _ => .ok (tok t)
-      | e => .err (Err.unexpectedExprType e)) }
+  { fromExpr? := some (callableFromExpr tok) }
 
 /-- `util::parse_expr::preserve_str_literal` -/
 def preserveStrLiteral (tok : String → α) (m : Meta) : Outcome α :=
@@ -224,14 +233,25 @@ def preserveStrLiteral (tok : String → α) (m : Meta) : Outcome α :=
   | .list _ _ _ _ _ _ => .err ((Err.unsupportedFormat "list").withSpan m.span)
   | .nameValue _ e _ _ => .ok (tok e.toks)
 
-/-- `util::parse_expr::parse_str_literal` -/
+/-- the string literal a value is once its invisible groups are peeled
+    (`while let Expr::Group(group) = value { value = &group.expr }`, then the test
+    `Expr::Lit(ExprLit { lit: Lit::Str(_), .. })`) -/
+def strLitOf : Expr → Option Lit
+  | .group g _ => strLitOf g
+  | .lit l => (match l.v with
+      | .str _ => some l
+      | _ => none)
+  | _ => none
+
+/-- `util::parse_expr::parse_str_literal`: only a string literal's contents are parsed; every
+    other value (any other literal included) is returned as written -/
 def parseStrLiteral (parse : String → Option String) (tok : String → α) (m : Meta) : Outcome α :=
   match m with
   | .path _ => .err ((Err.unsupportedFormat "path").withSpan m.span)
   | .list _ _ _ _ _ _ => .err ((Err.unsupportedFormat "list").withSpan m.span)
   | .nameValue _ e _ _ =>
-      match e with
-      | .lit l => parsedFromValue parse tok l
-      | e => .ok (tok e.toks)
+      match strLitOf e with
+      | some l => parsedFromValue parse tok l
+      | none => .ok (tok e.toks)
 
 end SynTypes
